@@ -819,7 +819,7 @@ class SepCopy(System):
 
 class History(System):
     nontrivial_per_config = True
-    def __init__(self, name='c01.history', universes=None, depth_q=3, depth_t=4, tcap_t=600, vector_splits=True):
+    def __init__(self, name='c01.history', universes=None, depth_q=3, depth_t=4, tcap_t=700, vector_splits=True):
         self.name = name
         self._tier = 'quick'
         self._universes = universes
